@@ -1,5 +1,6 @@
 //! C26: declared result classes of the builtin operators, dumped from the real checker.
 //!
+//!   c26 dump [--single [--stride K]]   (--single: one compilation per row, every K-th row; validates the batched dump)
 //!   c26 dump            one line per (op, A, B):  `bin \t <op> \t <A> \t <B> \t <result type | ->`
 //!                       and per (unary op, A):     `un  \t <op> \t <A> \t - \t <result type | ->`
 //!   c26 ty <src>        lower one source text; prints the type of the module-level binding `z` (debugging aid)
@@ -55,7 +56,7 @@ fn lower_many(defs: &[String]) -> Vec<Option<String>> {
     out
 }
 
-fn dump(single: bool) {
+fn dump(single: bool, stride: usize) {
     let mut rows: Vec<(String, String)> = vec![];
     for (opn, sym) in BINOPS.iter() {
         for a in CLASSES.iter() {
@@ -71,7 +72,8 @@ fn dump(single: bool) {
     }
     if single {
         // one compilation per row (slow; used by the thorough tier to validate the batched dump)
-        for (key, body) in rows.iter() {
+        for (n, (key, body)) in rows.iter().enumerate() {
+            if n % stride != 0 { continue; }
             let d = vec![format!("f0{}", body)];
             let r = catch(move || lower_many(&d)).unwrap_or_else(|_| vec![None]);
             println!("{}\t{}", key, r[0].clone().unwrap_or_else(|| "-".into()));
@@ -97,7 +99,10 @@ fn main() {
     quiet_panics();
     let a = parse_args();
     match a.mode.as_str() {
-        "dump" => dump(a.rest.iter().any(|x| x == "--single")),
+        "dump" => {
+            let stride = a.rest.iter().position(|x| x == "--stride").and_then(|i| a.rest.get(i + 1)).and_then(|v| v.parse().ok()).unwrap_or(1);
+            dump(a.rest.iter().any(|x| x == "--single"), stride)
+        }
         "ty" => {
             let src = a.rest.get(0).cloned().unwrap_or_default().replace("\\n", "\n");
             let cfg = ErgConfig { input: Input::str(src.clone()), ..ErgConfig::default() };
